@@ -26,10 +26,83 @@ def sig(c, r):
             "what": (r.get("why") or "").split(":")[1].strip().split(" ")[0] if ":" in (r.get("why") or "") else ""}
 
 
+APP_ARGS_QUICK = [
+    ("sq-5-2", ["--mesh", "{data}/unit-square-quad.xml", "--level", "5", "2", "--problem", "sin"], [1, 2, 3, 4, 6, 8]),
+    ("sq-ml", ["--mesh", "{data}/unit-square-quad.xml", "--level", "5", "3:2", "2", "--problem", "sin"], [4]),
+    ("lshape-3-1", ["--mesh", "{data}/l-shape-quad.xml", "--level", "3", "1", "--problem", "exp"], [1, 2, 3, 5]),
+]
+APP_ARGS_THOROUGH = APP_ARGS_QUICK + [
+    ("sq-6-2", ["--mesh", "{data}/unit-square-quad.xml", "--level", "6", "2", "--problem", "sin"], [1, 5, 7, 12, 16]),
+    ("flow-3-0", ["--mesh", "{data}/flowbench_c2d_03_quad_64.xml", "--level", "2", "0", "--problem", "cos"], [1, 2, 4, 7]),
+    ("sq-ml2", ["--mesh", "{data}/unit-square-quad.xml", "--level", "6", "4:4", "2", "--problem", "sin"], [16, 8]),
+]
+
+
+def parse_app(out):
+    import re
+    defs = [float(m.group(1)) for m in re.finditer(r"^PCG:\s+\d+ : ([0-9.eE+-]+)", out, re.M)]
+    errs = [float(m.group(1)) for m in re.finditer(r"^(?:H0|H1|L1|Lmax)-Norm\.*: ([0-9.eE+-]+)", out, re.M)]
+    failed = "FAILED" in out or "ERROR" in out
+    return defs, errs, failed
+
+
+def app_runs(chk, app):
+    """discretise-and-solve on 1..n processes; projection to agreement booleans; TLC judges (spec/DistSolve.tla)"""
+    import subprocess
+    plan = APP_ARGS_THOROUGH if chk.tier == "thorough" else APP_ARGS_QUICK
+    data = os.path.join(vlib.REPO, "data", "meshes")
+    runs = []
+    jobs = []
+    for group, args, nps in plan:
+        base = group.split("-ml")[0] + ("-5-2" if group == "sq-ml" else "-6-2" if group == "sq-ml2" else "")
+        for n in nps:
+            jobs.append((base if "-ml" in group else group, group, [a.format(data=data) for a in args], n))
+
+    def one(job):
+        g, label, args, n = job
+        try:
+            p = subprocess.run(["timeout", "300"] + MPIRUN + [str(n), app] + args, stdout=subprocess.PIPE, stderr=subprocess.STDOUT,
+                               text=True, errors="replace", cwd=vlib.BUILD)
+            return job, p.returncode, p.stdout
+        except Exception as e:  # noqa
+            return job, 99, str(e)
+    with cf.ThreadPoolExecutor(max_workers=3) as ex:
+        outs = list(ex.map(one, jobs))
+    ref = {}
+    for (g, label, args, n), rc, out in outs:
+        if n == 1 and g == label:
+            ref[g] = parse_app(out)
+    recs = []
+    for (g, label, args, n), rc, out in outs:
+        defs, errs, failed = parse_app(out)
+        rdefs, rerrs, _ = ref.get(g, ([], [], True))
+        d0 = rdefs[0] if rdefs else 1.0
+        agree_def = [abs(a - b) <= 2e-6 * abs(b) + 1e-9 * d0 for a, b in zip(defs, rdefs)] if len(defs) == len(rdefs) else [False] * len(defs)
+        agree_err = [abs(a - b) <= 2e-6 * abs(b) for a, b in zip(errs, rerrs)] if len(errs) == len(rerrs) else [False] * len(errs)
+        recs.append({"group": g, "label": label, "np": n, "status": "ok" if (rc == 0 and not failed and defs) else "failed(rc=%d)" % rc,
+                     "iters": max(0, len(defs) - 1), "agree_def": agree_def, "agree_err": agree_err, "defs": ["%.6e" % x for x in defs]})
+    path = os.path.join(vlib.BUILD, "c13_runs_%d.ndjson" % os.getpid())
+    with open(path, "w") as f:
+        for r in recs:
+            f.write(json.dumps(r) + "\n")
+    t = vlib.tlc("DistSolve", "DistSolve.cfg", workers=1, want_printed=False, env={"RUNS": path}, light=True)
+    chk.add_tlc(t, "DistSolve")
+    if t.violation:
+        bad = [r for r in recs if r["status"] != "ok" or not all(r["agree_def"]) or not all(r["agree_err"]) or r["iters"] != (len(ref.get(r["group"], ([], [], 0))[0]) - 1)]
+        for r in bad[:5] or recs[:1]:
+            chk.violation({"what": "distsolve", "np": r["np"], "group": r["label"], "status": r["status"]},
+                          "discretise-and-solve on %d processes (%s) differs from the one-process run: %s" % (r["np"], r["label"], json.dumps(r)[:600]),
+                          {"kind": "apprun", "record": r})
+    chk.extra["app_runs"] = len(recs)
+    chk.extra["app_process_counts"] = sorted({r["np"] for r in recs})
+    chk.sample({"app_run": {k: recs[-1][k] for k in ("label", "np", "iters", "defs")}})
+    os.remove(path)
+
+
 def run(chk):
     if shutil.which("mpirun") is None or shutil.which("mpicxx") is None:
         raise vlib.MachineryError("MPI toolchain (mpicxx/mpirun) not available")
-    binary, = vlib.build(["c13_synch"], variant="mpi")
+    binary, app = vlib.build(["c13_synch", "c13_poisson_app"], variant="mpi")
     thorough = chk.tier == "thorough"
     # ---- M ---------------------------------------------------------------------------------------
     mcs = [("Synch_mc3.cfg", 8)] + ([("Synch_mc4.cfg", 8)] if thorough else [("Synch_mc4s.cfg", 4)])
@@ -71,6 +144,7 @@ def run(chk):
         if nr == 3:
             for c in cases[100:102]:
                 chk.sample({k: c[k] for k in ("nr", "dofs", "v0", "sync0", "count", "dot", "perm")})
+    app_runs(chk, app)
     chk.traces = total
     chk.exhaustive = True
     chk.rule = ("model checking: all dof-to-rank overlap hypergraphs for 3 ranks x 3 dofs (thorough also 4 ranks) x all interleavings and "
@@ -78,6 +152,6 @@ def run(chk):
                 "MPI ranks x forced neighbour processing orders (hook H4), comparing frequencies, sync_0, sync_1, dot, norm, global dof count and "
                 "the distributed matrix-vector product exactly (tolerance only where a dof has 3 sharers: 1/3 is not dyadic); non-trivial = "
                 ">= 2 ranks with a shared dof")
-    chk.assumptions = ["gates are built directly from the decomposition (mirrors in ascending global dof order); the control layer's gate assembly "
-                       "and discretise-and-solve runs are not covered by this check",
+    chk.assumptions = ["gate-level cases are built directly from the decomposition (mirrors in ascending global dof order); the control layer (partitioning, "
+                       "gate/muxer assembly, multi-layered hierarchies) is exercised through the poisson application runs only",
                        "OpenMPI in one node with oversubscription; arrival orders in the real runs are forced through hook H4, all orders only in the model"]
